@@ -64,8 +64,18 @@ where
             return Ok(None);
         }
 
-        // Process all rows from child
+        // Read the whole source before writing: an INSERT … SELECT that reads the table it
+        // inserts into would otherwise keep finding the rows it has just added and never end.
+        // The source is closed first, because a scan keeps the page it stands on latched and the
+        // insert into that page would wait for this very statement.
+        let mut source = Vec::new();
         while let Some(row) = self.child.next()? {
+            source.push(row);
+        }
+        self.child.close()?;
+
+        // Process all rows from child
+        for row in source {
             self.stats.rows_scanned += 1;
 
             let mut dml = DmlExecutor::new(self.ctx.clone(), self.logger.clone());
